@@ -225,7 +225,10 @@ def apply_edit(net, rec, op):
         others = [j for j in js if j != e["junction"]]
         col, tbl, new = "junction", "ext_grid", others[(k // 7) % len(others)]
     elif what == "rewire":
-        c = [e for e in els if e["table"] == "pipe"]
+        # a pipe that carries a junction-pipe valve cannot be re-wired away from the valve's junction (create_valve
+        # rejects that description), so only pipes without attached valves are candidates
+        with_valve = {e["element"] for e in els if e["table"] == "valve" and e.get("et") == "pi"}
+        c = [e for e in els if e["table"] == "pipe" and e["index"] not in with_valve]
         js = [j["index"] for j in rec["junction"]]
         if not c or len(js) < 3:
             return None
